@@ -8,6 +8,7 @@ five-line reference loop on the batches of the generators passed in (replayed ou
 from __future__ import annotations
 
 import copy
+from fractions import Fraction
 import json
 
 from harness import solveprog as sp
@@ -146,7 +147,7 @@ def _pde_cases(rng, tier):
         for aux in ("param", "obs"):
             for rep in range(1 if tier == "quick" else 3):
                 out.append({"kind": "pde", "gen": kind, "aux": aux, "n": rng.choice([2, 3]), "seed": rng.randrange(1 << 30),
-                            "ob": rng.choice([1, 2]), "tb": rng.choice([2, 3]), "a0": str(rng.choice([-2, -1, 1, 2])),
+                            "ob": rng.choice([1, 2]), "tb": rng.choice([2, 4]), "a0": str(rng.choice([-2, -1, 1, 2])),
                             "c": [str(rng.choice([-2, -1, 1, 2])) for _ in range(3)]})
     return out
 
@@ -239,10 +240,17 @@ def _judge_pde(case, obs):
         return {"status": "disagree", "clause": "reference-loop-could-not-run:" + o["harness_reference_failed"]}
     if "error" in o:
         return {"status": "violation", "clause": "valid-program-rejected", "error": o["error"], "message": o.get("msg")}
-    if o["hist"] != o["ref"]["hist"]:
+    # compiled loop vs eager reference: the same real-number program, possibly fused differently by XLA -- the
+    # rounding rule of DESIGN section 2.3 (a logic error moves these values by orders of magnitude more)
+    def close(a, b):
+        fa, fb = Fraction(a), Fraction(b)
+        return abs(fa - fb) <= Fraction(1, 2 ** 46) * max(abs(fa), abs(fb), 1)
+
+    if len(o["hist"]) != len(o["ref"]["hist"]) or not all(close(a, b) for a, b in zip(o["hist"], o["ref"]["hist"])):
         return {"status": "violation", "clause": "loss-history", "observed": o["hist"], "reference": o["ref"]["hist"]}
-    if o["a"] != o["ref"]["a"]:
+    if not close(o["a"], o["ref"]["a"]):
         return {"status": "violation", "clause": "final-parameters", "observed": o["a"], "reference": o["ref"]["a"]}
+    obs["_ulp"] = o["hist"] != o["ref"]["hist"] or o["a"] != o["ref"]["a"]
     return {"status": "ok", "clause": None}
 
 
@@ -436,7 +444,7 @@ def nontrivial(case, obs):
 
 def tags(case, obs):
     if case["kind"] == "pde":
-        return [f"real_loss+{case['gen']}_generator+{case['aux']}_generator"]
+        return [f"real_loss+{case['gen']}_generator+{case['aux']}_generator"] + (["ulp_rule"] if obs.get("_ulp") else [])
     seg = case["segs"][0]
     out = [f"kind={case['kind']}", f"opt={seg['opt']['kind']}",
            "python_loop(obs_batch_sharding)" if seg.get("sharding") else
